@@ -232,6 +232,16 @@ def rule_where_order(ctx):
         if not order_ifs:
             r.bad(Finding("where-order", qual, "no branch on the original order of the two sites (i > j) found", where=where))
             continue
+        # a gate application whose `where` is a tuple written outside the order branch has a fixed orientation
+        for c in ast.walk(f.node):
+            if isinstance(c, ast.Call) and isinstance(c.func, ast.Attribute) and c.func.attr.rstrip("_") in ("gate_split", "gate_sandwich", "gate", "gate_inds"):
+                wv = next((k.value for k in c.keywords if k.arg == "where"), None)
+                if isinstance(wv, ast.Tuple) and len(wv.elts) == 2 and {src_of(e) for e in wv.elts} == {"i", "j"}:
+                    inside = any(any(c is y for y in ast.walk(o)) for o in order_ifs)
+                    if not inside:
+                        r.bad(Finding("where-order", qual,
+                                      f"`{src_of(c)[:60]}` (line {c.lineno}) applies the gate on the sorted pair {src_of(wv)} outside the branch on the original site order: "
+                                      "for where=(larger, smaller) the gate is applied with its two legs exchanged", where=where, operand=f"line-independent:{src_of(wv)}"))
         for a in targets:
             inside = any(any(a is y for y in ast.walk(o)) for o in order_ifs)
             if inside:
